@@ -90,6 +90,14 @@ def _gate_wait(kind, path, mutating):
         os._exit(99)  # scheduler went away
 
 
+def mark(label):
+    """Tell the scheduler (if any) that the actor reached a script position (not a step, no wait)."""
+    if S.gate is not None and S.armed:
+        rfd, wfd, actor = S.gate
+        msg = pickle.dumps(("mark", actor, label))
+        _REAL["os.write"](wfd, struct.pack("<I", len(msg)) + msg)
+
+
 class ShimFile:
     """Proxy around a raw, unbuffered binary file opened for writing."""
 
@@ -377,6 +385,9 @@ def run_scheduled(scripts, root, chooser, gate_reads=True, max_steps=5000):
 
     def advance(a):
         msg = _read_msg(a)
+        while msg is not None and msg[0] == "mark":
+            order.append((a.idx, "mark", msg[2], False))
+            msg = _read_msg(a)
         if msg is None:
             a.done = True
             a.result = a.result or {"exc": ("ActorDied", "actor exited without result", None, []), "ret": None}
@@ -388,9 +399,9 @@ def run_scheduled(scripts, root, chooser, gate_reads=True, max_steps=5000):
         else:
             a.pending = msg
 
+    order = []
     for a in actors:
         advance(a)
-    order = []
     n = 0
     while True:
         enabled = [a.idx for a in actors if not a.done and a.pending is not None]
